@@ -20,6 +20,10 @@ CLASSES = ['Foo', 'Bar', 'Baz', 'Widget', 'Helper', 'Node', 'Item']
 METHODS = ['run', 'get', 'doIt', 'compute', 'foo', 'bar', 'getName', 'm', 'md', 'process']
 TYPES_PRIM = ['int', 'long', 'boolean', 'double', 'char']
 EXC = ['IOException', 'RuntimeException', 'Exception', 'IllegalStateException']
+EXC_MANY = EXC + ['E%dException' % k for k in range(1, 30)]
+IFACES_MANY = ['Runnable', 'Comparable', 'Closeable', 'Serializable'] + ['Iface%d' % k for k in range(1, 30)]
+# list lengths around the sizes a fixed array, an inline buffer or a batch might have
+LONG_LIST = [8, 9, 10, 16, 17, 33]
 ANNOTS = ['@Override', '@Deprecated', '@Test', '@Nullable']
 WORDS = ['the', 'value', 'of', 'item', 'returns', 'café', 'naïve', '中文', 'x<y', 'a&b', 'quote"q', 'back\\slash', 'tab\there',
          'ctl\x01x', 'del\x7fete', 'vt\x0bv', 'emoji😀', 'nel\u0085', 'ls\u2028sep']
@@ -223,7 +227,7 @@ class Gen:
 
     def args(self, depth):
         e, rng = self.e, self.rng
-        n = rng.choice([0, 0, 1, 1, 2, 3])
+        n = rng.choice([0, 0, 1, 1, 2, 3]) if (depth > 1 or rng.random() > 0.04) else rng.choice(LONG_LIST)
         out = []
         e.w('(')
         for i in range(n):
@@ -656,7 +660,7 @@ class Gen:
             e.w(tp); e.sp()
         name = rng.choice(METHODS)
         e.w(ret); e.sp(); e.w(name); e.tight(); e.w('(')
-        np = rng.choice([0, 0, 1, 2, 3])
+        np = rng.choice([0, 0, 1, 2, 3]) if rng.random() > 0.06 else rng.choice(LONG_LIST)
         ptypes, pnames = [], []
         for i in range(np):
             if i:
@@ -671,7 +675,7 @@ class Gen:
         throws = []
         if rng.random() < 0.4:
             e.sp(); e.w('throws'); e.sp()
-            throws = rng.sample(EXC, rng.randint(1, 3))
+            throws = rng.sample(EXC, rng.randint(1, 3)) if rng.random() > 0.08 else rng.sample(EXC_MANY, rng.choice(LONG_LIST[:5]))
             for i, t in enumerate(throws):
                 if i:
                     e.w(','); e.osp()
@@ -710,7 +714,7 @@ class Gen:
             e.sp(); e.w('extends'); e.sp(); e.w(sup)
         ifaces = []
         if rng.random() < 0.4:
-            ifaces = rng.sample(['Runnable', 'Comparable', 'Closeable', 'Serializable'], rng.randint(1, 3))
+            ifaces = rng.sample(['Runnable', 'Comparable', 'Closeable', 'Serializable'], rng.randint(1, 3)) if rng.random() > 0.1 else rng.sample(IFACES_MANY, rng.choice(LONG_LIST[:5]))
             e.sp(); e.w('implements'); e.sp()
             for i, t in enumerate(ifaces):
                 if i:
